@@ -3,10 +3,12 @@ mod decode;
 mod exec;
 mod gen;
 mod ins;
+mod interp;
 mod minimize;
 mod model;
 mod oracle;
 mod rng;
+mod selftest;
 mod spec;
 
 use crate::checks::*;
@@ -368,7 +370,10 @@ fn check_cmd(id: &str, tier: &str, verif_seed: u64) -> i32 {
     let known = load_known();
     let mut by_sig: BTreeMap<String, Vec<&Violation>> = BTreeMap::new();
     for v in &vs {
-        let mut sigs: Vec<String> = v.owned.iter().map(|m| m.sig()).collect();
+        // only the most specific class of mismatch present names the violation (a wrong reference
+        // usually also makes the output invalid; the reference mismatch is the finding)
+        let best = v.owned.iter().map(|m| sig_priority(&m.kind)).min().unwrap_or(0);
+        let mut sigs: Vec<String> = v.owned.iter().filter(|m| sig_priority(&m.kind) == best).map(|m| m.sig()).collect();
         sigs.sort();
         sigs.dedup();
         for s in sigs {
@@ -651,6 +656,7 @@ fn main() {
         Some("replay") => replay_cmd(args.get(2).map(|s| s.as_str()).unwrap_or("")),
         Some("explore") => explore_cmd(&args[2], args.get(3).and_then(|s| s.parse().ok()).unwrap_or(1000), seed),
         Some("show") => show_cmd(&args[2], args.get(3).and_then(|s| s.parse().ok()).unwrap_or(0), seed),
+        Some("selftest") => selftest::selftest_cmd(seed),
         _ => {
             eprintln!("usage: sim check <ID> [--tier quick|thorough] | replay <file> | explore <ID> <n> | show <ID> <run>");
             2
@@ -658,4 +664,14 @@ fn main() {
     };
     let _ = std::io::stderr().flush();
     std::process::exit(code);
+}
+
+pub fn sig_priority(kind: &str) -> u8 {
+    match kind {
+        "unexpected_panic" => 1,
+        "returned_id" | "getter_invariant" => 2,
+        "entity_missing" | "entity_extra" | "entity_changed" => 3,
+        "invalid_output" => 4,
+        _ => 0,
+    }
 }
